@@ -32,4 +32,4 @@ LEVEL_TEXT = ("p_shm_new/free/take_ownership/lock/unlock/getters as obligations 
               "exit; failure releases everything; owner free removes both names and the exact mapping, non-owner free leaves the namespace alone; recovery lemma from every crash state.")
 LEVEL_NOTE = ("Trusted: ghost kernel models env/posix_shm.c and env/posix_sem.c (MAP_SHARED coherence, semaphore blocking), key derivation as a collision-free function, allocator and string "
               "models, close() succeeding. Concurrent first-open by several processes is NOT covered by these sequential obligations (a creator's reset of the lock can split the lock "
-              "from an opener that got in first): listed as a known finding by reading only, not decided here. Known finding: zero-size leftover segment.")
+              "from an opener that got in first): seen by reading only, NOT decided by any check here and therefore not listed as a finding. Known finding: zero-size leftover segment.")
